@@ -10,7 +10,8 @@ EXTENDS JsonGrammar, Json
 
 CONSTANTS MaxLen,        \* tokens per class string
           MaxWs,         \* whitespace tokens per class string
-          MaxBody        \* string-body tokens per class string
+          MaxBody,       \* string-body tokens per class string
+          MinEmit        \* emit only class strings at least this long (simulation runs)
 
 VARIABLES hist, st
 vars == <<hist, st>>
@@ -90,11 +91,13 @@ GrammarAgree ==
 \* stack depth = opened - closed containers (no structural token occurs inside a string in these behaviours)
 Balanced == Len(st.stack) = Count(hist, {"LBRACK", "LBRACE"}) - Count(hist, {"RBRACK", "RBRACE"})
 
-\* every live string is a viable prefix: its completion is accepted; a dead state stays dead
+\* every live string is a viable prefix: its completion is accepted; a killed string stays dead (Step is the
+\* identity on dead states by its first clause; checked here for the tokens a lenient parser would resynchronise on)
 CompletionOK ==
   LET fin == Run(st, [i \in 1..Len(Completion(st)) |-> Canon(Completion(st)[i])]) IN
   /\ Accepting(fin)
-  /\ \A c \in Kills : \A d \in Classes : Step(Step(st, Canon(c)), Canon(d)).mode = "dead"
+  /\ \A c \in Kills : \A d \in {"RBRACK", "RBRACE", "QUOTE", "COMMA", "SP"} :
+        Step(Step(st, Canon(c)), Canon(d)).mode = "dead"
 
 \* accepted values are well formed: object keys distinct, indices first and ascending
 RECURSIVE WellFormed(_)
@@ -109,7 +112,8 @@ WellFormed(v) ==
 ValueOK == Accepting(st) => WellFormed(FinalValue(st))
 
 EmitInv ==
-  PrintT(<<"CASE", ToJson([t |-> hist, acc |-> Accepting(st),
+  Len(hist) >= MinEmit =>
+  PrintT(<<"CASE", ToJson([t |-> hist, acc |-> Accepting(st), mode |-> st.mode,
                             val |-> IF Accepting(st) THEN FinalValue(st) ELSE NoVal,
                             kills |-> Kills, comp |-> Completion(st)])>>)
 =============================================================================
